@@ -326,18 +326,28 @@ func (p *parser) parseLabelPredicateAnd() (pred LabelPredicate, _ error) {
 				}
 			}
 			pred = &LabelMatcher{Label: Label(t.Text), Op: op, Value: v, Re: re}
-		case lexer.Number:
+		case lexer.Number, lexer.Add, lexer.Sub:
 			switch opTok.Type {
 			case lexer.CmpEq, lexer.NotEq, lexer.Lt, lexer.Lte, lexer.Gt, lexer.Gte:
 			default:
 				return nil, errors.Errorf("invalid operation %q", opTok.Type)
 			}
 
+			// Number may have a sign.
+			sign := 1.0
+			switch literalTok.Type {
+			case lexer.Sub:
+				sign = -1
+				fallthrough
+			case lexer.Add:
+				p.next()
+			}
+
 			v, err := p.parseNumber()
 			if err != nil {
 				return nil, err
 			}
-			pred = &NumberFilter{Label: Label(t.Text), Op: op, Value: v}
+			pred = &NumberFilter{Label: Label(t.Text), Op: op, Value: sign * v}
 		case lexer.Duration:
 			switch opTok.Type {
 			case lexer.CmpEq, lexer.NotEq, lexer.Lt, lexer.Lte, lexer.Gt, lexer.Gte:
